@@ -246,6 +246,11 @@ def r1(ctx):
         if q != base:
             broken.append("->".join(p))
     used = {a[1] for a in base.all_atoms() if isinstance(a, tuple) and len(a) == 2 and a[1] in IDX}
+    if not broken and used != set(IDX):
+        # the normal form does not mention all three members by role: the gathers were not read (a representation this rule does not see through),
+        # so invariance under relabelling is vacuous - undecided, not a verdict
+        raise AnalysisError(f"{f.site()}: the kernel's normal form mentions the triple members {sorted(used)} only; how predictions and variances are gathered "
+                            f"at the three members could not be read")
     ctx.check("R1", f"{f.site()}::S3-symmetry", not broken and used == set(IDX),
               f"normal form ({len(base.t)} top-level term(s)) is invariant under all 6 permutations of {IDX}",
               f"the score changes under relabelling of the three samples of a triple (permutations {broken[:3]} alter the normal form): "
